@@ -1124,6 +1124,16 @@ func (r *Resolver) answer(ctx context.Context, req, resp *dns.Msg, parentDS []dn
 		}
 	}
 
+	// The servers of zone speak for zone and nothing else. An answer
+	// section may continue an alias chain with records owned elsewhere
+	// ("x.zone CNAME victim.other" + "victim.other A ..."); relaying those
+	// would let any authority put words in another zone's mouth. A
+	// validated answer never gets this far with one (out-of-zone answer
+	// records fail the check above); for unsigned zones and CD=1 clients
+	// keep the in-zone part — the alias target is re-resolved at its own
+	// servers like any other out-of-zone CNAME.
+	resp.Answer = dnsutil.FilterRRsToZone(resp.Answer, zone)
+
 	if targetMsg != nil {
 		// Splice the target response into resp *after* DNSSEC check.
 		// The internal recursion already validated the target zone
